@@ -125,7 +125,7 @@ impl Engine for C19 {
     fn runs(&self, tier: Tier) -> u64 {
         match tier {
             Tier::Quick => 12_000,
-            Tier::Thorough => 150_000,
+            Tier::Thorough => 400_000,
         }
     }
     fn watchdog(&self, _tier: Tier) -> std::time::Duration {
@@ -141,7 +141,13 @@ impl Engine for C19 {
             2 => r.size_log(1 << 20),
             _ => r.size_log(60_000),
         };
-        let content = if r.chance(1, 10) {
+        let content = if r.chance(1, 15) {
+            // a run of one byte value whose only other bytes sit in the last (length mod 8) bytes of the file or of a
+            // 128 KiB block: "is this block a run?" must look at every byte
+            let total = *r.pick(&[9usize, 17, 1001, 4099, 131_079, 131_072 + 1001, 300 * 1024 + 4, 262_144 + 7]);
+            let t = 1 + r.usize_below((total % 8).max(1));
+            Content::Concat(vec![Content::Const { byte: r.byte(), len: total - t }, Content::Random { len: t, seed: r.next_u64() }])
+        } else if r.chance(1, 10) {
             // the block encoder's table bookkeeping across blocks ("literals stored raw", then a block that reuses a table)
             crate::c02::tiled_unit_content(&mut r)
         } else if r.chance(1, 6) {
